@@ -28,8 +28,51 @@ def val(tok):
             return ('P' * n, 1)
         if kind == '$t':
             return tuple(val(x) for x in tok[1:])
+        if kind == '$Y':
+            return YieldVal(n, tok[2] if len(tok) > 2 else 0)
         raise ValueError(tok)
     return tok
+
+
+def _user_code(what):
+    """User code that runs in the middle of a library call (an object's
+    pickling hooks): a scheduling point under SCHED, so that another thread
+    of the same Cache object can run while this one is inside Disk.store /
+    Disk.fetch."""
+    hook = ENV.hook
+    if hook is not None and hasattr(hook, 'point'):
+        hook.before('user-code', what)
+        hook.after('user-code', what, None)
+
+
+def _rebuild_yieldval(n, pad):
+    _user_code('unpickle')
+    return YieldVal(n, len(pad))
+
+
+class YieldVal:
+    """A value whose pickling and unpickling run Python code."""
+
+    def __init__(self, n, pad=0):
+        self.n = n
+        self.pad = pad
+
+    def __reduce__(self):
+        _user_code('pickle')
+        return (_rebuild_yieldval, (self.n, 'y' * self.pad))
+
+    def __deepcopy__(self, memo):
+        return self
+
+    def __eq__(self, other):
+        return type(other) is YieldVal and (other.n, other.pad) == (
+            self.n, self.pad)
+
+    def __hash__(self):
+        return hash(('YieldVal', self.n, self.pad))
+
+    def __repr__(self):
+        return 'YieldVal(%r, %r)' % (self.n, self.pad)
 
 
 class Chunks:
